@@ -194,6 +194,9 @@ def block_thermal_holstein(ctx, ht):
         P = np.diag(ht.sector(1 if ex else 0).astype(float))
         # beta over two decades (in units of the spectral width)
         beta = float(10 ** rng.uniform(-1.3, 0.7)) / nh
+        if forced is not None and forced["kind"] == "vmf":
+            # low temperature end: the thermal state is far from the (bond dimension 2) infinite-temperature purification
+            beta = float(10 ** rng.uniform(0.3, 0.7)) / nh
         spec = forced if forced is not None else schemes[int(rng.integers(0, len(schemes)))]
         nm = name_of(spec)
         nsteps = int(rng.integers(1, 5)) if spec.get("adaptive") or spec["kind"] in ("muvmf", "vmf") else int(rng.integers(4, 9))
@@ -201,7 +204,7 @@ def block_thermal_holstein(ctx, ht):
             nsteps = max(nsteps, 6)
         # half of the cases: the ensemble Hamiltonian is passed explicitly (`h_mpo_model`) and the initial density operator
         # was built from ANOTHER model with the same local bases (other energies, couplings and displacements)
-        explicit = ex == explicit_sector
+        explicit = (ex == explicit_sector) and forced is None
         if explicit and spec["kind"] in ("ps", "ps2", "muvmf", "vmf", "cmf"):
             spec = schemes[int(rng.integers(0, 3))]
             nm = name_of(spec)
